@@ -233,7 +233,26 @@ def check(repo, ctx, index, purity):
             itp.run(f)
             c, A, b, dtr = tableau(itp)
         except AnalysisError as e:
-            ctx.undecided('R6.1', ITER, q, f, f'iterator left the straight-line idiom: {e}')
+            # branching iterator: the tableau is not read off, but every path to a return must still evaluate every stage
+            from .. import cfg as C
+            fname = U.params(f)[0]
+            g = C.build(f)
+
+            def tr(node, st, label, fname=fname):
+                eff = C.simple_effect_node(node)
+                k = sum(1 for c in (U.calls(eff) if eff is not None else []) if isinstance(c.func, ast.Name) and c.func.id == fname)
+                return min(st + k, 99)
+            try:
+                at, exits = C.collect(g, 0, tr)
+                counts = sorted({s_ for lab, sts in exits.items() if lab in ('return', 'fall') for s_ in sts})
+            except Exception:
+                counts = []
+            if len(counts) > 1:
+                ctx.violation('R6.1', ITER, q, f, f'paths through {q} return after {counts[:-1]} evaluation(s) of the right-hand side while the full scheme uses {counts[-1]}: on the short path '
+                              'the remaining stages are skipped, which is only exact for an autonomous right-hand side that stays zero - for a time-dependent problem the step loses its order',
+                              construct=f'{q}: stage evaluations per path {counts}')
+            else:
+                ctx.undecided('R6.1', ITER, q, f, f'iterator left the straight-line idiom: {e}')
             continue
         s = len(b)
         tableaux[q] = {'c': [str(x) for x in c], 'A': [[str(x) for x in r] for r in A], 'b': [str(x) for x in b]}
